@@ -43,7 +43,7 @@ PROPS = {
     'C13': dict(spec_mods=['SsoSpec.C13'], engines=['proxyflow']),
     'C14': dict(spec_mods=['SsoSpec.C14'], engines=['config']),
     'C15': dict(spec_mods=['SsoSpec.C15'], engines=['breaker']),
-    'C16': dict(spec_mods=['SsoSpec.C16'], engines=['sf', 'sfwrap']),
+    'C16': dict(spec_mods=['SsoSpec.C16'], engines=['sf', 'sfwrap', 'proxyflow']),
     'C17': dict(spec_mods=['SsoSpec.C17'], engines=['caches']),
 }
 
